@@ -18,11 +18,22 @@ import (
 	"verif/engine/sym"
 )
 
-const (
+// verifDir / harnessDir: VERIF_SCRATCH=<dir> redirects the harness module to
+// <dir>/harness (its go.mod may point at a scratch copy of the library) and all
+// outputs (evidence, replays, binaries) to <dir>; used only for mutation trials.
+var (
 	verifDir   = "/verif"
 	harnessDir = "/verif/harness"
-	hPkg       = "verif/harness/h"
 )
+
+const hPkg = "verif/harness/h"
+
+func init() {
+	if d := os.Getenv("VERIF_SCRATCH"); d != "" {
+		verifDir, harnessDir = d, filepath.Join(d, "harness")
+		os.MkdirAll(filepath.Join(d, "bin"), 0o755)
+	}
+}
 
 type options struct {
 	prop    string
@@ -143,6 +154,9 @@ func runProperty(opt options) int {
 				sol.CrossEvery = 499
 			}
 			for i := range ch {
+				if i%5 == 0 {
+					cases[i].WantModel = true
+				}
 				if cases[i].MaxWallS == 0 {
 					cases[i].MaxWallS = 90
 					if opt.tier == "thorough" {
@@ -204,7 +218,7 @@ type knownFile struct {
 
 func loadKnown() map[string]knownFinding {
 	m := map[string]knownFinding{}
-	data, err := os.ReadFile(filepath.Join(verifDir, "known_findings.json"))
+	data, err := os.ReadFile("/verif/known_findings.json")
 	if err != nil {
 		return m
 	}
